@@ -24,8 +24,48 @@ QUICK = ["p0_kwargs", "p2_plain_then_noprose", "p1_optint_d", "p1_optbool_f", "p
          "p2_plain_then_d", "p1_ret", "ret_only", "p1_kwargs", "p0", "p1_code"]
 
 
+def _sd_ir(vals=None):
+    """IR for the style-detection query: summary, two parameter proses and the return prose are holes (sentinels or given values)"""
+    from collections import OrderedDict
+
+    from lib.styledetect import SENT
+
+    v = list(vals) if vals else [SENT % i for i in range(4)]
+    ir = {"name": None, "type": "static", "doc": v[0],
+          "params": OrderedDict([("a", {"typ": "int", "doc": v[1], "default": 5}), ("b", {"typ": "List[str]", "doc": v[2]})]),
+          "returns": OrderedDict([("return_type", {"typ": "bool", "doc": v[3]})])}
+    return (ir, 4) if vals is None else ir
+
+
+def _sd_run(style, maxlen):
+    from lib import styledetect
+
+    from doctrans import emit
+    from doctrans.docstring_parsers import parse_docstring
+    from doctrans.docstring_utils import TOKENS
+
+    return styledetect.run(emit.docstring, parse_docstring, TOKENS, _sd_ir, style, maxlen=maxlen)
+
+
+def _sd_replay(cex):
+    from lib import styledetect
+
+    from doctrans import emit
+    from doctrans.docstring_parsers import parse_docstring
+
+    return styledetect.replay(emit.docstring, parse_docstring, lambda vals: _sd_ir(vals), cex)
+
+
 def obligations(tier, seed):
+    from lib.ob import ZOb
+
     obs = []
+    for style in ("rest", "numpydoc", "google"):
+        obs.append(ZOb(name="style_detected_%s" % style, run=(lambda st=style: _sd_run(st, 12 if tier == "quick" else 40)), replay=_sd_replay,
+                       bounds="direct z3 string query: the %s text emitted by the real emit.docstring for a two-parameter + return description whose "
+                       "summary and three proses are holes (each <= %d chars over printable ASCII + newline, no hole containing a token by "
+                       "itself) is detected as %s by the chain translated from parse_docstring's current AST" % (style, 12 if tier == "quick" else 40, style),
+                       funcs=["doctrans.docstring_parsers.parse_docstring (style detection chain, AST -> z3)", "doctrans.emit.docstring (template)"]))
     shapes = QUICK if tier == "quick" else list(SHAPES)
     for kind in ("rest", "numpydoc", "google"):
         for sid in shapes:
